@@ -1,4 +1,4 @@
-"""C14 -- rope's view of source text agrees with the tokenizer (RCA rules R14.1-R14.9)."""
+"""C14 -- rope's view of source text agrees with the tokenizer (RCA rules R14.1-R14.10)."""
 from __future__ import annotations
 
 import ast
@@ -236,6 +236,9 @@ def check(ctx, res) -> None:
     from .common import hard_keyword_rule
 
     hard_keyword_rule(ctx, res, "R14.8")
+    from .common import keyword_word_boundary_rule
+
+    keyword_word_boundary_rule(ctx, res, "R14.10")
 
 
 def line_table_rule(ctx, res, rule: str) -> None:
